@@ -1,31 +1,39 @@
 """C08 - a template means the same on every compilation and rendering path, whatever PYTHONHASHSEED.
 
-oracle : the multi-path differential.  Generated template sets are run, in one worker subprocess per hash seed
-         (0, 1, 2 and one seeded "random" value), through: string (with and without uri/filename) / file in memory /
-         file with module_directory / modulename_callable / ModuleTemplate over the written module file /
-         ModuleTemplate over `Template.code` written out by hand / the module directory re-loaded by a FRESH process;
-         each through render, render_unicode, render_context, get_def(n).render() for every def, and (default
-         options, string data) the mako-render command (in-process cmdline() and the real executable).  Outputs,
-         `source`, `code` (modulo the lines listed in CODE_MAY_DIFFER), has_def/list_defs/get_def must agree between
-         all paths and all seeds.  An in-place regeneration family (bytecode caching on) regenerates a module file in
-         the same second with the same size - a second root sharing the module directory, or the source edited - with
-         the default writer and three module_writer= variants: the regenerated module must be the one that executes.
-         A directory family gives every seed's worker lookups over 2-4 directories (absolute,
-         relative, duplicate spellings) with shadowed URIs: get_template, include / inherit / namespace and mako-render
-         with several --template-dir must serve "the first configured directory that contains it" (file, source, code,
-         defs, output), under every hash seed.  A history family runs multi-step sequences in ONE process (load through a module
-         directory, edit the source, re-get, a second lookup with another root sharing the module directory, a fresh
-         lookup) and requires after every step that the template just obtained answers source/code/defs/output for its
-         own text (code = the module file on disk = the in-memory compile of the same text).  A second family puts several templates whose URIs differ only in non-word
-         characters / spelling into ONE lookup and asks every template for its own source and code.  No Lean involved.
+oracle (no Lean involved), five families:
+  paths        generated template sets are run, in one worker subprocess per hash seed (0, 1, 2 and one seeded "random"
+               value), through 9 constructions - string with uri+filename / bare string / file in memory via a lookup /
+               file without uri / module_directory / modulename_callable / ModuleTemplate over the written module file /
+               ModuleTemplate over `Template.code` written out by hand / the module directory re-loaded by a FRESH
+               process - each through render, render_unicode, render_context, get_def(n).render() for every def, and
+               (default options, string data) the mako-render command, in-process cmdline() and the real executable
+               (11 path labels in all).  Outputs, `source`, `code` (modulo CODE_MAY_DIFFER), has_def/list_defs/get_def
+               must agree between all paths and all seeds; ground truth on the reference path: list_defs = the planted
+               defs, get_def of a name without has_def raises, get_def(n).render(**kw) = render_context with the named
+               keyword arguments spelled out, get_def of a def that reads local/self/parent/next in an INHERITING
+               template = what the def writes during a full render.
+  directories  every seed's worker gets lookups over 2-4 directories (absolute, relative, duplicate spellings) with
+               shadowed URIs: get_template, include / inherit / namespace and mako-render with several --template-dir
+               must serve "the first configured directory that contains it" (file, source, code, defs, output).
+  regeneration (bytecode caching on) a module file is regenerated in the same second with the same size - a second
+               root sharing the module directory, or the source edited - with the default writer and three
+               module_writer= variants: the regenerated module must be the one that executes.
+  histories    multi-step sequences in ONE process (load through a module directory, edit the source, re-get, a second
+               lookup with another root sharing the module directory, a fresh lookup): after every step the template
+               just obtained answers source/code/defs/output for its own text (code = the module file on disk = the
+               in-memory compile of the same text).
+  one lookup   several templates whose URIs differ only in spelling / in non-word characters in ONE lookup: every
+               template is asked for its own source, code, defs and output; two such templates including each other
+               with a same-named <%namespace> must render as under non-colliding URIs (finds F5).
 corr   : the Lean models of lean/MakoModel/Paths8 against the real code, op-level: module_id on every code point and
          on random URIs, Template.__init__'s path selection, _kwargs_for_callable on random signatures, the ModuleInfo
-         registry on random register/collect/read scripts, has_def/list_defs, the module preamble, and - per hash seed -
-         every declaration block the real generator emitted (recorded by wrapping write_variable_declares in the
-         worker): the emitted order must be the model's `emittedBlock` (sorted `to_write`, the model's statement
-         kinds), blocks - and the whole generated module - must be IDENTICAL under all hash seeds (since 8e8e5a7 the
-         generator prints sorted sets), and the NameError a strict template raises must be the one `execDecls` raises
-         for the emitted block.
+         registry on random register/collect/read scripts, ModuleInfo.code over scripted rewrites of the module file,
+         the directory probe order of get_template, has_def/list_defs, the module preamble, Context._locals key order,
+         and - per hash seed - every declaration block the real generator emitted (recorded by wrapping
+         write_variable_declares in the worker): the emitted order must be the model's `emittedBlock` (sorted
+         `to_write`, the model's statement kinds), blocks - and the whole generated module - must be IDENTICAL under all
+         hash seeds (the generator prints sorted sets), and the NameError a strict template raises must be the one
+         `execDecls` raises for the emitted block.
 """
 from __future__ import annotations
 
@@ -44,18 +52,25 @@ RULE = ("template sets = a main template built from self-contained items (text i
         "to auxiliary templates incl. several importing namespaces that supply the same name, an inheriting template whose "
         "def reads local/self/parent/next (bracketed by markers: ground truth for get_def().render()), a context.keys() "
         "probe inside a def) + data + compile options (strict_undefined, "
-        "default_filters, buffer_filters, imports, output_encoding); each set x 9 construction paths x 3-4 render calls "
-        "x get_def per def x 4 hash seeds; non-trivial = the main template has >= 2 declared names in some render "
+        "default_filters, buffer_filters, imports, output_encoding); each set x 9 construction paths (+ mako-render twice = "
+        "11 path labels) x 3-4 render calls x get_def per def x 4 hash seeds; plus, per seed, 30 (thorough 300) lookups "
+        "over 2-4 directories with shadowed URIs and 4 module writers x 2 in-place regeneration scenarios; plus, in the "
+        "main process, 60 (800) edit/re-get/second-lookup histories and 40 (600) sets of URIs that differ only in "
+        "non-word characters in one lookup; non-trivial = the main template has >= 2 declared names in some render "
         "callable (so that the set order matters) or non-ASCII text; distinct = distinct template sources")
 ASSUMPTIONS = [
     "import machinery, .pyc caching and mako-render's argv handling are exercised by the differential, not modelled",
     "PYTHONHASHSEED only influences mako through the iteration order of Python sets (dict order is insertion order)",
     "the `random` hash seed is drawn from the check's PRNG (reproducible), not from os.urandom",
+    "the in-place regeneration scenarios are conclusive only when both generations share the whole-second mtime and the "
+    "size (retried; the stamping module_writer makes one variant deterministic)",
 ]
 TRUSTED_EXTRA = [
     "C08: the worker's recorder of write_variable_declares (wraps three methods of _GenerateRenderMethod and "
     "PythonPrinter.writeline in the worker process) and its line parser",
     "C08: regex class \\W is the regenerated table Generated/Unicode.lean (probed from the running interpreter)",
+    "C08: the flags dropsBytecode / dropsBytecodeHook come from the regen group ModFile (tools/regen_modfile.py, shared "
+    "with C15), the other flags and tables from tools/regen_paths8.py",
 ]
 REGEN = ["Unicode", "Paths8", "ModFile"]
 
